@@ -35,6 +35,7 @@ def reaches (c : Cfg) (s : St) : Op → Bool
     | .accrual => s.loaded && s.enabled && allTrue (if getFlag s.flags k then s.flags else setFlag s.flags k)
     | .sequence => s.loaded && s.enabled && decide ((k : Int) = s.value) && decide ((c.steps : Int) ≤ s.value + 1)
     | .counter => false
+  | .advr k => c.kind = .accrual && s.loaded && s.enabled && !getFlag s.flags k && allTrue (setFlag s.flags k)
   | _ => false
 
 /-! ### the small methods -/
@@ -57,6 +58,9 @@ def reaches (c : Cfg) (s : St) : Op → Bool
 @[simp] theorem isHit_upd (s : St) : isHit (upd s) = false := rfl
 @[simp] theorem isComplete_upd (s : St) : isComplete (upd s) = false := rfl
 @[simp] theorem isTimeout_upd (s : St) : isTimeout (upd s) = false := rfl
+@[simp] theorem isHit_refused : isHit .refused = false := rfl
+@[simp] theorem isComplete_refused : isComplete .refused = false := rfl
+@[simp] theorem isTimeout_refused : isTimeout .refused = false := rfl
 
 /-- everything `afterComplete` posts is an `updated` event -/
 theorem afterComplete_obs (c : Cfg) (s : St) :
@@ -120,10 +124,14 @@ theorem nComplete_ite_complete (c : Cfg) (s : St) (p : Prop) [Decidable p] :
   by_cases h : p <;> simp [h, (complete_obs c s).2.2]
   cases s.completed <;> simp
 
-theorem tick_obs (c : Cfg) (s : St) : nHit (tick c s).2 = 0 ∧ nComplete (tick c s).2 = 0 := by
-  unfold tick
-  by_cases hw : s.windowUntil = some (s.now + 1) <;> by_cases ht : s.timeoutDue = some (s.now + 1) <;>
-    simp [hw, ht, reset]
+theorem clock_obs (s : St) : nHit (clock s).2 = 0 ∧ nComplete (clock s).2 = 0 ∧ nTimeout (clock s).2 = 0 := by
+  unfold clock; split <;> simp
+
+theorem fireW_obs (s : St) : nHit (fireW s).2 = 0 ∧ nComplete (fireW s).2 = 0 ∧ nTimeout (fireW s).2 = 0 := by
+  unfold fireW; split <;> simp
+
+theorem fireT_obs (c : Cfg) (s : St) : nHit (fireT c s).2 = 0 ∧ nComplete (fireT c s).2 = 0 := by
+  unfold fireT; split <;> simp [reset]
 
 /-- the op is a hit that the block accepts in this state -/
 def acceptedHit (c : Cfg) (s : St) : Op → Bool
@@ -133,6 +141,7 @@ def acceptedHit (c : Cfg) (s : St) : Op → Bool
     | .accrual => s.loaded && s.enabled && !getFlag s.flags k
     | .sequence => s.loaded && s.enabled && decide ((k : Int) = s.value)
     | .counter => false
+  | .advr k => c.kind = .accrual && s.loaded && s.enabled && !getFlag s.flags k
   | _ => false
 
 theorem step_nHit (c : Cfg) (s : St) (op : Op) :
@@ -158,7 +167,13 @@ theorem step_nHit (c : Cfg) (s : St) (op : Op) :
     | add n => cases hk : c.kind <;> simp [step, stepLoaded, hl, hk, adjust, acceptedHit]
     | sub n => cases hk : c.kind <;> simp [step, stepLoaded, hl, hk, adjust, acceptedHit]
     | set n => cases hk : c.kind <;> simp [step, stepLoaded, hl, hk, adjust, acceptedHit]
-    | tick => simp [step, stepLoaded, hl, acceptedHit, (tick_obs c s).1]
+    | clock => simp [step, stepLoaded, hl, acceptedHit, (clock_obs s).1]
+    | fireW => simp [step, stepLoaded, hl, acceptedHit, (fireW_obs s).1]
+    | fireT => simp [step, stepLoaded, hl, acceptedHit, (fireT_obs c s).1]
+    | advr k =>
+      cases hk : c.kind <;> simp [step, stepLoaded, hl, hk, acceptedHit]
+      cases hg : getFlag s.flags k <;> simp
+      cases he : s.enabled <;> simp [accrualHit, he, hg]
     | unload => simp [step, stepLoaded, hl, acceptedHit]
     | load => simp [step, stepLoaded, hl, acceptedHit]
 
@@ -193,7 +208,13 @@ theorem step_nComplete (c : Cfg) (s : St) (op : Op) :
     | add n => cases hk : c.kind <;> simp [step, stepLoaded, hl, hk, adjust, reaches, nComplete_ite_complete]
     | sub n => cases hk : c.kind <;> simp [step, stepLoaded, hl, hk, adjust, reaches, nComplete_ite_complete]
     | set n => cases hk : c.kind <;> simp [step, stepLoaded, hl, hk, adjust, reaches, nComplete_ite_complete]
-    | tick => simp [step, stepLoaded, hl, reaches, (tick_obs c s).2]
+    | clock => simp [step, stepLoaded, hl, reaches, (clock_obs s).2.1]
+    | fireW => simp [step, stepLoaded, hl, reaches, (fireW_obs s).2.1]
+    | fireT => simp [step, stepLoaded, hl, reaches, (fireT_obs c s).2]
+    | advr k =>
+      cases hk : c.kind <;> simp [step, stepLoaded, hl, hk, reaches]
+      cases hg : getFlag s.flags k <;> simp
+      cases he : s.enabled <;> simp [accrualHit, he, hg, nComplete_ite_complete]
     | unload => simp [step, stepLoaded, hl, reaches]
     | load => simp [step, stepLoaded, hl, reaches]
 
@@ -252,13 +273,18 @@ def ledgerRun (c : Cfg) : Ledger → List (Op × List Obs) → Ledger
   | l, [] => l
   | l, x :: r => ledgerRun c (ledgerStep c l x.1 x.2) r
 
-theorem tick_value (c : Cfg) (s : St) :
-    (tick c s).1.loaded = s.loaded ∧
-    (tick c s).1.value = (if s.timeoutDue = some (s.now + 1) then startVal c else s.value) ∧
-    nTimeout (tick c s).2 = (if s.timeoutDue = some (s.now + 1) then 1 else 0) := by
-  unfold tick
-  by_cases hw : s.windowUntil = some (s.now + 1) <;> by_cases ht : s.timeoutDue = some (s.now + 1) <;>
-    simp [hw, ht, reset, timerStart] <;> split <;> simp
+theorem fireT_value (c : Cfg) (s : St) :
+    (fireT c s).1.loaded = s.loaded ∧
+    (fireT c s).1.value = (if s.timeoutDue = some s.now then startVal c else s.value) ∧
+    nTimeout (fireT c s).2 = (if s.timeoutDue = some s.now then 1 else 0) := by
+  unfold fireT
+  by_cases ht : s.timeoutDue = some s.now <;> simp [ht, reset, timerStart] <;> split <;> simp
+
+theorem clock_value (s : St) : (clock s).1.loaded = s.loaded ∧ (clock s).1.value = s.value := by
+  unfold clock; split <;> simp
+
+theorem fireW_value (s : St) : (fireW s).1.loaded = s.loaded ∧ (fireW s).1.value = s.value := by
+  unfold fireW; split <;> simp
 
 theorem ledger_step (c : Cfg) (s : St) (l : Ledger) (op : Op) (hk : c.kind = .counter)
     (inv : s.loaded = true → s.value = l.value c) (hl' : (step c s op).1.loaded = true) :
@@ -298,10 +324,13 @@ theorem ledger_step (c : Cfg) (s : St) (l : Ledger) (op : Op) (hk : c.kind = .co
       simp [step, stepLoaded, hl, hk, adjust, ledgerStep, isResetOp, iv, Ledger.value, nComplete_ite_complete,
         ite_complete_value, hs]
       cases hg : goalReached c n <;> cases hc : s.completed <;> cases hr : c.resetOnComplete <;> simp
-    | tick =>
-      have t := tick_value c s
-      simp [step, stepLoaded, hl, ledgerStep, isResetOp, iv, Ledger.value, t.2.1, t.2.2, (tick_obs c s).2, hs]
+    | clock => simp [step, stepLoaded, hl, ledgerStep, isResetOp, iv, (clock_value s).2, (clock_obs s).2.1, (clock_obs s).2.2]
+    | fireW => simp [step, stepLoaded, hl, ledgerStep, isResetOp, iv, (fireW_value s).2, (fireW_obs s).2.1, (fireW_obs s).2.2]
+    | fireT =>
+      have t := fireT_value c s
+      simp [step, stepLoaded, hl, ledgerStep, isResetOp, iv, Ledger.value, t.2.1, t.2.2, (fireT_obs c s).2, hs]
       split <;> simp
+    | advr k => simp [step, stepLoaded, hl, hk, ledgerStep, isResetOp, iv]
     | unload => simp [step, stepLoaded, hl, unload] at hl'
     | load => simp [step, stepLoaded, hl, ledgerStep, isResetOp, iv]
 
@@ -379,16 +408,24 @@ theorem step_post (c : Cfg) (s : St) (op : Op) (hr : reaches c s op = true) (hc 
   | disable => simp [reaches] at hr
   | reset => simp [reaches] at hr
   | restart => simp [reaches] at hr
-  | tick => simp [reaches] at hr
+  | clock => simp [reaches] at hr
+  | fireW => simp [reaches] at hr
+  | fireT => simp [reaches] at hr
+  | advr k =>
+    simp only [reaches, Bool.and_eq_true, decide_eq_true_eq, Bool.not_eq_true'] at hr
+    obtain ⟨⟨⟨⟨hk, hl⟩, he⟩, hg⟩, ha⟩ := hr
+    simp only [step, stepLoaded, hl, hk, accrualHit, he, hg]
+    simp only [Bool.true_eq_false, Bool.false_eq_true, if_false, ha, if_true]
+    exact post_of_after c s _ _ (complete_state c _ hc) he.symm rfl
   | unload => simp [reaches] at hr
   | load => simp [reaches] at hr
 
 
 /-! ### the hit window -/
 
-/-- a pending window deadline lies in the future, at most `multiple_hit_window` away (and only a present block has one) -/
+/-- a pending window deadline is not in the past, at most `multiple_hit_window` away (and only a present block has one) -/
 def WindowOk (c : Cfg) (s : St) : Prop :=
-  (s.loaded = false → s.windowUntil = none) ∧ ∀ d, s.windowUntil = some d → s.now < d ∧ d ≤ s.now + c.window
+  (s.loaded = false → s.windowUntil = none) ∧ ∀ d, s.windowUntil = some d → s.now ≤ d ∧ d ≤ s.now + c.window
 
 theorem step_loaded (c : Cfg) (s : St) (op : Op) (hl : s.loaded = true) : step c s op = stepLoaded c s op := by
   simp [step, hl]
@@ -407,13 +444,6 @@ theorem ite_complete_window (c : Cfg) (s : St) (p : Prop) [Decidable p] :
     (if p then complete c s else (s, [])).1.now = s.now ∧
     (if p then complete c s else (s, [])).1.loaded = s.loaded := by
   by_cases h : p <;> simp [h, complete_window]
-
-theorem tick_window (c : Cfg) (s : St) :
-    (tick c s).1.windowUntil = (if s.windowUntil = some (s.now + 1) then none else s.windowUntil) ∧
-    (tick c s).1.now = s.now + 1 := by
-  unfold tick
-  by_cases hw : s.windowUntil = some (s.now + 1) <;> by_cases ht : s.timeoutDue = some (s.now + 1) <;>
-    simp [hw, ht, reset, timerStart] <;> split <;> simp
 
 /-- the counter state after the value change of an accepted hit -/
 def bump (c : Cfg) (s : St) : St := { s with value := s.value + hv c }
@@ -512,17 +542,32 @@ theorem step_window (c : Cfg) (s : St) (op : Op) (h : WindowOk c s) : WindowOk c
     | set n =>
       cases hk : c.kind <;> simp only [stepLoaded, hk] <;> try exact h
       have f := adjust_frame c s (n); exact windowOk_of_same c s _ h f.1 f.2.1 f.2.2
-    | tick =>
-      simp only [stepLoaded]
-      refine ⟨fun hf => ?_, fun d hd => ?_⟩
-      · rw [(tick_value c s).1, hl] at hf; exact absurd hf (by simp)
-      · rw [(tick_window c s).1] at hd
-        rw [(tick_window c s).2]
-        split at hd
-        · simp at hd
-        · have := h.2 d hd
-          have : d ≠ s.now + 1 := fun e => by subst e; simp_all
+    | clock =>
+      simp only [stepLoaded, clock]
+      split
+      · exact h
+      · rename_i hg
+        refine ⟨fun hf => ?_, fun d hd => ?_⟩
+        · simp [hl] at hf
+        · simp only at hd ⊢
+          have := h.2 d hd
+          have : d ≠ s.now := fun e => hg (Or.inl (e ▸ hd))
           omega
+    | fireW =>
+      simp only [stepLoaded, fireW]
+      split
+      · exact ⟨fun _ => rfl, fun d hd => by simp at hd⟩
+      · exact h
+    | fireT =>
+      simp only [stepLoaded, fireT]
+      split
+      · simp only [reset, timerStart]; split <;> exact h
+      · exact h
+    | advr k =>
+      cases hk : c.kind <;> simp only [stepLoaded, hk] <;> try exact h
+      split
+      · exact h
+      · have f := accrualHit_frame c s k; exact windowOk_of_same c s _ h f.1 f.2.1 f.2.2
     | unload => simp [stepLoaded, unload, WindowOk]
     | load => exact h
 
@@ -531,22 +576,11 @@ theorem run_window (c : Cfg) (s : St) (ops : List Op) (h : WindowOk c s) : Windo
   | nil => exact h
   | cons op r ih => exact ih _ (step_window c s op h)
 
-theorem ticks_reopen (c : Cfg) (n : Nat) (s : St) (d : Nat) (hl : s.loaded = true) (hw : s.windowUntil = some d)
-    (hn : d = s.now + n) (hpos : 0 < n) : (ticks c n s).1.windowUntil = none := by
-  induction n generalizing s with
-  | zero => omega
-  | succ m ih =>
-    simp only [ticks, step_loaded c s _ hl, stepLoaded]
-    have t := tick_window c s
-    have tl := (tick_value c s).1
-    by_cases hm : m = 0
-    · subst hm
-      simp only [ticks]
-      rw [t.1, hw, hn]; simp
-    · apply ih (tick c s).1 (by rw [tl, hl])
-      · rw [t.1, hw, if_neg]; simp; omega
-      · rw [t.2]; omega
-      · omega
+/-- at its deadline the window blocks the clock until `stop_ignoring_hits` has run, which reopens it -/
+theorem window_deadline (c : Cfg) (s : St) (hl : s.loaded = true) (hw : s.windowUntil = some s.now) :
+    step c s .clock = (s, [Obs.refused]) ∧ (step c s .fireW).1.windowUntil = none := by
+  rw [step_loaded c s _ hl, step_loaded c s _ hl]
+  simp [stepLoaded, clock, fireW, hw]
 
 
 /-! ### accruals: steps in any order -/
@@ -685,5 +719,412 @@ theorem sequence_run (c : Cfg) (s : St) (ks : List Nat) (hk : c.kind = .sequence
       rw [sequence_wrong_step c s k hk hv]
       have := ih s hl he hn
       simp [this.1, this.2]
+
+/-! ## the block in its environment (`Sys`, `xstep`) -/
+
+/-- the block method an extended op runs now (`none`: it does not run one - environment change, mode start / stop,
+a refused clock tick or a delayed call that is not due) -/
+def xcore (y : Sys) : XOp → Option Op
+  | .core .unload => none
+  | .core .load => none
+  | .core .clock => if dueNow y.s.now y.pending then none else some .clock
+  | .core o => some o
+  | .fireD a k => (takeDue y.s.now a y.pending).map (fun _ => actOp a k)
+  | _ => none
+
+/-- the op is a hit - direct or a delayed call running now - that the block accepts -/
+def acceptedX (y : Sys) (x : XOp) : Bool :=
+  match xcore y x with | some o => acceptedHit y.c y.s o | none => false
+
+/-- the op reaches the goal, as the completion template evaluates now, while the block is not completed -/
+def reachesX (y : Sys) (x : XOp) : Bool :=
+  match xcore y x with | some o => reaches y.c y.s o && !y.s.completed | none => false
+
+theorem load_obs (c : Cfg) (s : St) :
+    nHit (load c s).2 = 0 ∧ nComplete (load c s).2 = 0 ∧ nTimeout (load c s).2 = 0 := by
+  cases h : c.startEnabled <;> simp [load, enable, h]
+
+theorem startMode_obs (y : Sys) (p : Nat) :
+    nHit (startMode y p).2 = 0 ∧ nComplete (startMode y p).2 = 0 ∧ nTimeout (startMode y p).2 = 0 := by
+  unfold startMode
+  split
+  · simp
+  · split
+    · simp
+    · exact load_obs _ _
+
+/-- an extended op either runs exactly one block method on the current configuration, or posts no hit, completion
+or timeout event at all -/
+theorem xstep_core (y : Sys) (x : XOp) :
+    match xcore y x with
+    | some o => (xstep y x).2 = (step y.c y.s o).2 ∧ (xstep y x).1.s = (step y.c y.s o).1 ∧ (xstep y x).1.c = y.c
+    | none => nHit (xstep y x).2 = 0 ∧ nComplete (xstep y x).2 = 0 ∧ nTimeout (xstep y x).2 = 0 := by
+  cases x with
+  | core o =>
+    cases o <;> try (simp [xcore, xstep, startMode_obs]; done)
+    by_cases h : dueNow y.s.now y.pending = true <;> simp [xcore, xstep, h]
+  | dpost a d => simp only [xcore, xstep]; split <;> simp
+  | fireD a k =>
+    simp only [xcore, xstep]
+    cases takeDue y.s.now a y.pending <;> simp
+  | setStart n => simp [xcore, xstep]
+  | setGoal g => simp [xcore, xstep]
+  | stopMode => simp [xcore, xstep]
+  | startMode p => simp [xcore, xstep, startMode_obs]
+
+theorem xstep_nHit (y : Sys) (x : XOp) : nHit (xstep y x).2 = if acceptedX y x then 1 else 0 := by
+  have h := xstep_core y x
+  unfold acceptedX
+  cases hx : xcore y x with
+  | none => rw [hx] at h; simp [h.1]
+  | some o => rw [hx] at h; simp only [h.1, step_nHit]
+
+theorem xstep_nComplete (y : Sys) (x : XOp) : nComplete (xstep y x).2 = if reachesX y x then 1 else 0 := by
+  have h := xstep_core y x
+  unfold reachesX
+  cases hx : xcore y x with
+  | none => rw [hx] at h; simp [h.2.1]
+  | some o => rw [hx] at h; simp only [h.1, step_nComplete]
+
+/-! ### the value ledger over the extended ops -/
+
+/-- the ledger of a counter seen from outside, plus what the `starting_count` template evaluates to now -/
+structure XLedger where
+  l : Ledger
+  start : Int
+  deriving DecidableEq, Repr
+
+/-- the value the last `updated` event of a mode start announces -/
+def announced (obs : List Obs) : Option Int :=
+  match obs.getLast? with
+  | some (.updated v _ _) => some v
+  | _ => none
+
+def restartLedger (xl : XLedger) (obs : List Obs) : XLedger :=
+  match announced obs with
+  | some v => ⟨⟨v, 0⟩, xl.start⟩
+  | none => xl
+
+/-- Bookkeeping from outside over the extended ops: a changed start variable is remembered and becomes the base at
+the next reset; a mode start (fresh block or the player's stored state) restarts the ledger at the value it
+announces; a delayed call that runs counts like the direct event; a refused one does not count. -/
+def xledgerStep (c0 : Cfg) (xl : XLedger) (x : XOp) (obs : List Obs) : XLedger :=
+  match x with
+  | .setStart n => { xl with start := n }
+  | .core .load => restartLedger xl obs
+  | .startMode _ => restartLedger xl obs
+  | .core .unload => xl
+  | .core o => ⟨ledgerStep { c0 with start := xl.start } xl.l o obs, xl.start⟩
+  | .fireD a k =>
+    if obs.head? = some Obs.refused then xl
+    else ⟨ledgerStep { c0 with start := xl.start } xl.l (actOp a k) obs, xl.start⟩
+  | _ => xl
+
+def xledgerRun (c0 : Cfg) : XLedger → List (XOp × List Obs) → XLedger
+  | xl, [] => xl
+  | xl, x :: r => xledgerRun c0 (xledgerStep c0 xl x.1 x.2) r
+
+theorem ledgerStep_congr (c1 c2 : Cfg) (l : Ledger) (o : Op) (obs : List Obs) (h1 : c1.start = c2.start)
+    (h2 : c1.resetOnComplete = c2.resetOnComplete) : ledgerStep c1 l o obs = ledgerStep c2 l o obs := by
+  unfold ledgerStep; rw [h1, h2]
+
+theorem value_congr (c1 c2 : Cfg) (l : Ledger) (h1 : c1.interval = c2.interval) (h2 : c1.down = c2.down) :
+    l.value c1 = l.value c2 := by
+  simp [Ledger.value, hv, h1, h2]
+
+/-- what links the running system to the ledger -/
+structure LedgerInv (c0 : Cfg) (y : Sys) (xl : XLedger) : Prop where
+  kind : y.c.kind = .counter
+  interval : y.c.interval = c0.interval
+  down : y.c.down = c0.down
+  roc : y.c.resetOnComplete = c0.resetOnComplete
+  start : xl.start = y.c.start
+  value : y.s.loaded = true → y.s.value = xl.l.value c0
+
+/-- a block method never answers `refused` first (only a timer op or the clock can) -/
+theorem act_not_refused (c : Cfg) (s : St) (a : Act) (k : Nat) :
+    (step c s (actOp a k)).2.head? ≠ some Obs.refused := by
+  cases hl : s.loaded
+  · cases a <;> simp [actOp, step, stepUnloaded, hl]
+  · cases a <;> simp [actOp, step, stepLoaded, hl, enable, disable, reset, restart, upd]
+    · cases c.kind <;> simp
+      unfold count
+      split
+      · simp
+      · split <;> simp [upd]
+    · cases c.kind <;> simp
+      split
+      · simp
+      · unfold accrualHit
+        split
+        · simp
+        · rename_i hg; simp [hg, upd]
+
+theorem load_announced (c : Cfg) (s : St) : announced (load c s).2 = some (load c s).1.value := by
+  cases h : c.startEnabled <;> simp [load, enable, announced, upd, h, timerStart] <;> split <;> simp
+
+theorem ledgerInv_core (c0 : Cfg) (y : Sys) (xl : XLedger) (o : Op) (s' : St) (obs : List Obs)
+    (inv : LedgerInv c0 y xl) (hs : s' = (step y.c y.s o).1) (ho : obs = (step y.c y.s o).2) (y' : Sys)
+    (hy : y'.c = y.c) (hys : y'.s = s') :
+    LedgerInv c0 y' ⟨ledgerStep { c0 with start := xl.start } xl.l o obs, xl.start⟩ := by
+  refine ⟨hy ▸ inv.kind, hy ▸ inv.interval, hy ▸ inv.down, hy ▸ inv.roc, hy ▸ inv.start, fun hl => ?_⟩
+  rw [hys, hs] at hl ⊢
+  have iv : y.s.loaded = true → y.s.value = xl.l.value y.c := fun h => by
+    rw [inv.value h]; exact (value_congr _ _ _ inv.interval inv.down).symm
+  have := ledger_step y.c y.s xl.l o inv.kind iv hl
+  rw [this, ho, value_congr _ c0 _ inv.interval inv.down]
+  congr 1
+  exact ledgerStep_congr _ _ _ _ _ (by simp [inv.start]) (by simp [inv.roc])
+
+theorem startMode_inv (c0 : Cfg) (y : Sys) (xl : XLedger) (p : Nat) (inv : LedgerInv c0 y xl) :
+    LedgerInv c0 (startMode y p).1 (restartLedger xl (startMode y p).2) := by
+  unfold startMode
+  split
+  · simp only [restartLedger, announced]; exact inv
+  · split
+    · refine ⟨inv.kind, inv.interval, inv.down, inv.roc, ?_, ?_⟩
+      · simp [restartLedger, announced, upd, inv.start]
+      · intro _; simp [restartLedger, announced, upd, Ledger.value]
+    · refine ⟨inv.kind, inv.interval, inv.down, inv.roc, ?_, ?_⟩
+      · simp only [restartLedger, load_announced]; exact inv.start
+      · intro _; simp only [restartLedger, load_announced]; simp [Ledger.value]
+
+theorem stopMode_inv (c0 : Cfg) (y : Sys) (xl : XLedger) (inv : LedgerInv c0 y xl) : LedgerInv c0 (stopMode y) xl := by
+  unfold stopMode
+  split
+  · exact inv
+  · exact ⟨inv.kind, inv.interval, inv.down, inv.roc, inv.start, fun h => by simp [unload] at h⟩
+
+theorem xledger_step (c0 : Cfg) (y : Sys) (xl : XLedger) (x : XOp) (inv : LedgerInv c0 y xl) :
+    LedgerInv c0 (xstep y x).1 (xledgerStep c0 xl x (xstep y x).2) := by
+  cases x with
+  | core o =>
+    cases o with
+    | unload => exact stopMode_inv c0 y xl inv
+    | load => exact startMode_inv c0 y xl y.cur inv
+    | clock =>
+      simp only [xstep, xledgerStep]
+      split
+      · refine ⟨inv.kind, inv.interval, inv.down, inv.roc, inv.start, fun h => ?_⟩
+        simp [ledgerStep, isResetOp, inv.value h]
+      · exact ledgerInv_core c0 y xl .clock _ _ inv rfl rfl _ rfl rfl
+    | count => exact ledgerInv_core c0 y xl .count _ _ inv rfl rfl _ rfl rfl
+    | hit k => exact ledgerInv_core c0 y xl (.hit k) _ _ inv rfl rfl _ rfl rfl
+    | enable => exact ledgerInv_core c0 y xl .enable _ _ inv rfl rfl _ rfl rfl
+    | disable => exact ledgerInv_core c0 y xl .disable _ _ inv rfl rfl _ rfl rfl
+    | reset => exact ledgerInv_core c0 y xl .reset _ _ inv rfl rfl _ rfl rfl
+    | restart => exact ledgerInv_core c0 y xl .restart _ _ inv rfl rfl _ rfl rfl
+    | add n => exact ledgerInv_core c0 y xl (.add n) _ _ inv rfl rfl _ rfl rfl
+    | sub n => exact ledgerInv_core c0 y xl (.sub n) _ _ inv rfl rfl _ rfl rfl
+    | set n => exact ledgerInv_core c0 y xl (.set n) _ _ inv rfl rfl _ rfl rfl
+    | fireW => exact ledgerInv_core c0 y xl .fireW _ _ inv rfl rfl _ rfl rfl
+    | fireT => exact ledgerInv_core c0 y xl .fireT _ _ inv rfl rfl _ rfl rfl
+    | advr k => exact ledgerInv_core c0 y xl (.advr k) _ _ inv rfl rfl _ rfl rfl
+  | dpost a d =>
+    simp only [xstep, xledgerStep]
+    split
+    · exact ⟨inv.kind, inv.interval, inv.down, inv.roc, inv.start, inv.value⟩
+    · exact inv
+  | fireD a k =>
+    simp only [xstep, xledgerStep]
+    rcases Option.eq_none_or_eq_some (takeDue y.s.now a y.pending) with ht | ⟨rest, ht⟩
+    · simp only [ht]; simpa using inv
+    · simp only [ht, if_neg (act_not_refused y.c y.s a k)]
+      exact ledgerInv_core c0 y xl (actOp a k) _ _ inv rfl rfl _ rfl rfl
+  | setStart n =>
+    exact ⟨inv.kind, inv.interval, inv.down, inv.roc, rfl, inv.value⟩
+  | setGoal g => exact ⟨inv.kind, inv.interval, inv.down, inv.roc, inv.start, inv.value⟩
+  | stopMode => exact stopMode_inv c0 y xl inv
+  | startMode p => exact startMode_inv c0 y xl p inv
+
+/-! ### delayed control calls, stored states, the window over the extended ops -/
+
+theorem takeDue_sub (now : Nat) (a : Act) (l rest : List (Nat × Act)) (h : takeDue now a l = some rest) :
+    (∀ x ∈ rest, x ∈ l) ∧ rest.length + 1 = l.length := by
+  induction l generalizing rest with
+  | nil => simp [takeDue] at h
+  | cons x r ih =>
+    simp only [takeDue] at h
+    split at h
+    · simp only [Option.some.injEq] at h; subst h
+      exact ⟨fun z hz => List.mem_cons_of_mem _ hz, rfl⟩
+    · cases hr : takeDue now a r with
+      | none => simp [hr] at h
+      | some r' =>
+        simp only [hr, Option.map_some, Option.some.injEq] at h; subst h
+        have := ih r' hr
+        refine ⟨fun z hz => ?_, by simp [this.2]⟩
+        rcases List.mem_cons.mp hz with e | e
+        · exact e ▸ List.mem_cons_self
+        · exact List.mem_cons_of_mem _ (this.1 z e)
+
+/-- no block method moves the clock; only `clock` does, by one tick -/
+theorem step_now (c : Cfg) (s : St) (o : Op) : (step c s o).1.now = if o = .clock then (step c s o).1.now else s.now := by
+  cases hl : s.loaded
+  · cases o <;> simp [step, stepUnloaded, hl, load, enable, timerStart]
+    cases c.startEnabled <;> simp <;> split <;> simp
+  · rw [step_loaded c s o hl]
+    cases o with
+    | count =>
+      cases hk : c.kind <;> simp only [stepLoaded, hk, reduceCtorEq, if_false] <;> try rfl
+      cases he : s.enabled
+      · rw [count_ignored c s (Or.inl he)]
+      · cases hw : s.windowUntil
+        · rw [count_accepted c s he hw]
+          have k := ite_complete_window c (bump c s) (goalReached c (bump c s).value = true)
+          unfold startWindow
+          split
+          · exact k.2.1
+          · exact k.2.1
+        · rw [count_ignored c s (Or.inr (by simp [hw]))]
+    | hit k =>
+      cases hk : c.kind <;> simp only [stepLoaded, hk, reduceCtorEq, if_false] <;> try rfl
+      · exact (accrualHit_frame c s k).2.1
+      · exact (sequenceHit_frame c s k).2.1
+    | enable => simp [stepLoaded, enable, timerStart]; split <;> rfl
+    | disable => simp [stepLoaded, disable]
+    | reset => simp [stepLoaded, reset, timerStart]; split <;> rfl
+    | restart => simp [stepLoaded, restart, reset, enable, timerStart]; split <;> rfl
+    | add n =>
+      cases hk : c.kind <;> simp only [stepLoaded, hk, reduceCtorEq, if_false] <;> try rfl
+      exact (adjust_frame c s _).2.1
+    | sub n =>
+      cases hk : c.kind <;> simp only [stepLoaded, hk, reduceCtorEq, if_false] <;> try rfl
+      exact (adjust_frame c s _).2.1
+    | set n =>
+      cases hk : c.kind <;> simp only [stepLoaded, hk, reduceCtorEq, if_false] <;> try rfl
+      exact (adjust_frame c s _).2.1
+    | clock => simp
+    | fireW => simp [stepLoaded, fireW]; split <;> rfl
+    | fireT => simp [stepLoaded, fireT, reset, timerStart]; split <;> (try split) <;> rfl
+    | advr k =>
+      cases hk : c.kind <;> simp only [stepLoaded, hk, reduceCtorEq, if_false] <;> try rfl
+      split
+      · rfl
+      · exact (accrualHit_frame c s k).2.1
+    | unload => simp [stepLoaded, unload]
+    | load => simp [stepLoaded]
+
+/-- no pending delayed call lies in the past -/
+def PendingOk (y : Sys) : Prop := ∀ x ∈ y.pending, y.s.now ≤ x.1
+
+theorem startMode_frame (y : Sys) (p : Nat) :
+    (startMode y p).1.pending = y.pending ∧ (startMode y p).1.s.now = y.s.now ∧ (startMode y p).1.saved = y.saved := by
+  unfold startMode
+  split
+  · simp
+  · split
+    · simp
+    · simp [load]; cases y.c.startEnabled <;> simp [enable, timerStart] <;> split <;> simp
+
+theorem xstep_core_other (y : Sys) (o : Op) (h1 : o ≠ .clock) (h2 : o ≠ .unload) (h3 : o ≠ .load) :
+    xstep y (.core o) = ({ y with s := (step y.c y.s o).1 }, (step y.c y.s o).2) := by
+  cases o <;> simp_all [xstep]
+
+theorem xstep_pending (y : Sys) (x : XOp) (h : PendingOk y) : PendingOk (xstep y x).1 := by
+  cases x with
+  | core o =>
+    by_cases hc : o = .clock
+    · subst hc
+      simp only [xstep]
+      split
+      · exact h
+      · rename_i hd
+        intro z hz
+        have hz' : z ∈ y.pending := hz
+        have h1 := h z hz'
+        have h2 : z.1 ≠ y.s.now := fun e => hd (by simp only [dueNow, List.any_eq_true]; exact ⟨z, hz', by simp [e]⟩)
+        have h3 : (step y.c y.s .clock).1.now ≤ y.s.now + 1 := by
+          cases hl : y.s.loaded
+          · simp [step, stepUnloaded, hl]
+          · simp [step, stepLoaded, hl, clock]; split <;> simp
+        show (step y.c y.s .clock).1.now ≤ z.1
+        omega
+    · by_cases hu : o = .unload
+      · subst hu; simp only [xstep, stopMode]; split; exact h; intro z hz; simp at hz
+      · by_cases hl : o = .load
+        · subst hl
+          simp only [xstep]; intro z hz
+          have f := startMode_frame y y.cur
+          rw [f.1] at hz; rw [f.2.1]; exact h z hz
+        · rw [xstep_core_other y o hc hu hl]
+          intro z hz
+          have hn := step_now y.c y.s o
+          simp only [hc, if_false] at hn
+          show (step y.c y.s o).1.now ≤ z.1
+          rw [hn]; exact h z hz
+  | dpost a d =>
+    simp only [xstep]
+    split
+    · intro z hz
+      simp only [List.mem_append, List.mem_singleton] at hz
+      rcases hz with hz | hz
+      · exact h z hz
+      · subst hz; simp
+    · exact h
+  | fireD a k =>
+    simp only [xstep]
+    rcases Option.eq_none_or_eq_some (takeDue y.s.now a y.pending) with ht | ⟨rest, ht⟩
+    · simp only [ht]; exact h
+    · simp only [ht]
+      intro z hz
+      have hz' : z ∈ rest := hz
+      have hn := step_now y.c y.s (actOp a k)
+      have : actOp a k ≠ .clock := by cases a <;> simp [actOp]
+      simp only [this, if_false] at hn
+      show (step y.c y.s (actOp a k)).1.now ≤ z.1
+      rw [hn]; exact h z ((takeDue_sub _ _ _ _ ht).1 z hz')
+  | setStart n => exact h
+  | setGoal g => exact h
+  | stopMode => simp only [xstep, stopMode]; split; exact h; intro z hz; simp at hz
+  | startMode p =>
+    simp only [xstep]; intro z hz
+    have f := startMode_frame y p
+    rw [f.1] at hz; rw [f.2.1]; exact h z hz
+
+theorem xrun_pending (y : Sys) (ops : List XOp) (h : PendingOk y) : PendingOk (xrun y ops).1 := by
+  induction ops generalizing y with
+  | nil => exact h
+  | cons op r ih => exact ih _ (xstep_pending y op h)
+
+theorem xstep_window (y : Sys) (x : XOp) (h : WindowOk y.c y.s) : WindowOk (xstep y x).1.c (xstep y x).1.s := by
+  have k := xstep_core y x
+  cases hx : xcore y x with
+  | some o => rw [hx] at k; rw [k.2.1, k.2.2]; exact step_window y.c y.s o h
+  | none =>
+    cases x with
+    | core o =>
+      cases o <;> simp [xcore] at hx
+      · simp only [xstep, hx, if_true]; exact h
+      · simp only [xstep, stopMode]; split; exact h; simp [unload, WindowOk]
+      · simp only [xstep, startMode]
+        split; exact h
+        split
+        · simp [WindowOk]
+        · have := step_window y.c y.s .load h
+          rename_i hl _ _; simp only [Bool.not_eq_true] at hl
+          rw [step_unloaded _ _ _ hl] at this; exact this
+    | dpost a d => simp only [xstep]; split <;> exact h
+    | fireD a k =>
+      simp only [xstep]
+      rcases Option.eq_none_or_eq_some (takeDue y.s.now a y.pending) with ht | ⟨rest, ht⟩
+      · simp only [ht]; exact h
+      · simp [xcore, ht] at hx
+    | setStart n => exact h
+    | setGoal g => exact h
+    | stopMode => simp only [xstep, stopMode]; split; exact h; simp [unload, WindowOk]
+    | startMode p =>
+      simp only [xstep, startMode]
+      split; exact h
+      split
+      · simp [WindowOk]
+      · have := step_window y.c y.s .load h
+        rename_i hl _ _; simp only [Bool.not_eq_true] at hl
+        rw [step_unloaded _ _ _ hl] at this; exact this
+
+theorem xrun_window (y : Sys) (ops : List XOp) (h : WindowOk y.c y.s) : WindowOk (xrun y ops).1.c (xrun y ops).1.s := by
+  induction ops generalizing y with
+  | nil => exact h
+  | cons op r ih => exact ih _ (xstep_window y op h)
 
 end MpfVerif.LogicBlock
